@@ -174,6 +174,7 @@ class Projector:
             if 'default' in p:
                 dv = p['default']
                 out[p['name']] = (self.m.classes[dv[1]][dv[2]] if dv[0] == 'enum'
+                                  else self.m.classes[dv[1]](dv[2]) if dv[0] == 'strlike'
                                   else models.lit_val(dv))
         for n, v in c.get('defaults_override') or []:
             if n in out:
@@ -186,6 +187,21 @@ class Projector:
         for a, b in d.items():
             if a in defaults:
                 dv = defaults[a]
+                if isinstance(dv, enum.Enum):
+                    # documented as unsupported for enums: an attribute holding
+                    # the default member may stay or go, any other member stays
+                    # (also for class X(str, Enum) whose values look like names)
+                    if b == self.enum(dv):
+                        raise Ambiguous('enum default')
+                    out[a] = b
+                    continue
+                if type(dv).__name__ in self.by and self.by[type(dv).__name__].get('kind') in (
+                        'strsub', 'userstring', 'ystring'):
+                    # a string-like default: equal text may stay or go
+                    if b == self.strlike(dv):
+                        raise Ambiguous('string-like default')
+                    out[a] = b
+                    continue
                 bk, dk = scalar_kind(b), scalar_kind(dv)
                 if bk is not None and type(b) in (str, int, float, bool, type(None)):
                     if dk == bk:
